@@ -859,8 +859,133 @@ func c15MalformedKey(c *vc.Ctx, s0 *Host, liveNs []int, eng string) {
 	}
 }
 
+// c15PartialFailure: PLSET / a pipeline of SETs spanning partitions in which
+// one pair must fail at the node (key longer than the 10240-byte limit, which
+// only the apply side checks). One reply per pair, OK for the pairs that were
+// written and an error for the others, the stores agree with the replies, and
+// the connection stays in step (the PING sentinel is answered +PONG right
+// after the replies of the command).
+func c15PartialFailure(c *vc.Ctx, s0 *Host, liveNs []int, eng string) {
+	conn, err := Dial(s0.Addr(), 20*time.Second)
+	if err != nil {
+		c.Inconclusive("d: dial: " + err.Error())
+		return
+	}
+	defer func() { conn.Close() }()
+	fired := map[string]bool{}
+	r := c.Rand(5300)
+	cases := c.Pick(6, 40)
+	seq := 0
+	for _, n := range liveNs {
+		if n < 2 {
+			continue
+		}
+		ns := "p" + strconv.Itoa(n)
+		for cs := 0; cs < cases; cs++ {
+			name := []string{"PLSET", "SET-PIPELINE"}[cs%2]
+			pairs := 3 + r.Intn(3)
+			badAt := r.Intn(pairs)
+			bad := "mkpf:" + strings.Repeat("k", 10300+r.Intn(50)) + strconv.Itoa(seq)
+			badPid := zanredisdb.GetHashedPartitionID([]byte(bad), n)
+			var keys, vals []string
+			other := false
+			for i := 0; i < pairs; i++ {
+				seq++
+				if i == badAt {
+					keys = append(keys, bad)
+					vals = append(vals, "vbad")
+					continue
+				}
+				k := fmt.Sprintf("mkpf:g%d", seq)
+				// make sure at least one good key lives in another partition than the bad one
+				for !other && zanredisdb.GetHashedPartitionID([]byte(k), n) == badPid {
+					seq++
+					k = fmt.Sprintf("mkpf:g%d", seq)
+				}
+				if zanredisdb.GetHashedPartitionID([]byte(k), n) != badPid {
+					other = true
+				}
+				keys = append(keys, k)
+				vals = append(vals, fmt.Sprintf("v%d", seq))
+			}
+			argv := [][]byte{[]byte("PLSET")}
+			for i := range keys {
+				argv = append(argv, []byte(ns+":"+keys[i]), []byte(vals[i]))
+			}
+			var rs []Reply
+			if name == "PLSET" {
+				rs, err = conn.DoLone(argv, 500*time.Millisecond)
+			} else {
+				rs, err = conn.DoPipelinedSetsFramed(argv[1:], 500*time.Millisecond)
+			}
+			shown := qargv(argv)
+			if name == "SET-PIPELINE" {
+				shown = append([]string{"(pipeline of SET key value, sent in one write:)"}, shown[1:]...)
+			}
+			if err != nil {
+				// no PONG in step: the connection is out of sync (or closed)
+				if !fired["multikey-partial-failure/"+name] {
+					fired["multikey-partial-failure/"+name] = true
+					c.Violation("multikey-partial-failure/"+name, fmt.Sprintf("%d partitions: after %v the connection does not answer the PING sentinel: %v (replies so far: %s)", n, cutList(shown, 9), err, cut(renderReplies(rs), 200)),
+						c15Witness{Part: "d-partial", Engine: eng, N: n, Commands: [][]string{shown}})
+				}
+				conn.Close()
+				if conn, err = Dial(s0.Addr(), 20*time.Second); err != nil {
+					return
+				}
+				continue
+			}
+			oks, errs := 0, 0
+			for _, rp := range rs {
+				if rp.IsErr() {
+					errs++
+				} else {
+					oks++
+				}
+			}
+			// stores: which pairs were written
+			written := 0
+			badWritten := false
+			for i, k := range keys {
+				g, gerr := conn.DoS("GET", ns+":"+k)
+				if gerr != nil {
+					c.Inconclusive("d: " + gerr.Error())
+					return
+				}
+				if !g.IsErr() && !g.IsNil() && string(g.Str) == vals[i] {
+					written++
+					if i == badAt {
+						badWritten = true
+					}
+				}
+			}
+			c.Ev.Eval()
+			c.Ev.Count("d_partial_failure_cases", 1)
+			c.Ev.Nontrivial(fmt.Sprintf("d-partial/%s/%d/%d/%d", name, n, pairs, errs))
+			if cs == 0 {
+				c.Ev.Sample(40, map[string]interface{}{"part": "d-partial", "n": n, "cmd": cutList(shown, 9), "replies": cut(renderReplies(rs), 200), "pairs_written": written})
+			}
+			problem := ""
+			switch {
+			case len(rs) != pairs:
+				problem = fmt.Sprintf("%d replies for %d pairs", len(rs), pairs)
+			case oks != written:
+				problem = fmt.Sprintf("%d OK replies but %d pairs are stored", oks, written)
+			case badWritten || errs == 0:
+				problem = "the pair with the over-long key was not refused"
+			}
+			if problem != "" && !fired["multikey-partial-failure/"+name] {
+				fired["multikey-partial-failure/"+name] = true
+				c.Violation("multikey-partial-failure/"+name, fmt.Sprintf("%d partitions, %d pairs of which #%d has a %d-byte key (refused at the node): %s; replies before the PING sentinel: %s; command %v", n, pairs, badAt, len(bad), problem, cut(renderReplies(rs), 300), cutList(shown, 9)),
+					c15Witness{Part: "d-partial", Engine: eng, N: n, Commands: [][]string{shown}, Detail: map[string]interface{}{"replies": renderReplies(rs), "pairs": pairs, "pairs_stored": written, "ok_replies": oks, "error_replies": errs}})
+			}
+		}
+	}
+}
+
 func c15MultiKey(c *vc.Ctx, s0 *Host, liveNs []int, eng string) {
 	c15MalformedKey(c, s0, liveNs, eng)
+	c15PartialFailure(c, s0, liveNs, eng)
 	directed := c15DirectedMulti(c, s0, liveNs, eng)
 	count := c.Pick(300, 3000)
 	ops := genMkOps(c.Rand(5000), count)
